@@ -2,6 +2,9 @@ import SSVerif.Props.C11
 import SSVerif.Proofs.LatticeBest
 import SSVerif.Proofs.LatticeAstar
 import SSVerif.Proofs.LatticeSemiring
+import SSVerif.Proofs.LatticeInt
+import SSVerif.Proofs.LogAdd
+import SSVerif.Model.LogConfigs
 /-!
 # C12 — N-best lists and lattice scores are ordered and probabilistically sane
 
@@ -15,11 +18,19 @@ rounding, weights being natural numbers = numerators over a common denominator).
 All theorems hold for every lattice satisfying the C11 predicate `LatticeOK` (every lattice the
 decoder can produce, by the C11 check), every `k` and every fuel.
 
-**Partial:** the *integer* forward/backward pass (`logmath_add` with its table rounding) is not
-modelled here; the accumulated rounding of `alpha`, `beta`, `norm` is checked on the implementation
-against a per-addition bound (tools/props/c12.py).  What is proved is the exact semiring statement.
-A* is proved to emit non-increasing scores and lattice paths for every agenda bound; that its
-*first* result is a maximum over the seed set is checked by recomputation, not proved.
+The *integer* forward/backward passes (`alphaInt`, `betaInt`, `normInt`: `logmath_add` with its table
+rounding, the float32-scaled link scores supplied per link) are modelled and compared exactly with
+the C values on every dumped lattice.  For them `C12_int_bestpath_posterior_le_one` proves that the
+posterior of the best path — of any start→end path — is at most one *exactly*, for every log-add that
+never returns less than its larger argument (`logmath_add` with the decoder's table:
+`C12_int_bestpath_posterior_dec`).
+
+**Partial:** that the integer link posteriors `alpha + beta - norm` exceed one by at most the
+accumulated table rounding is *not* proved (it needs the real-valued accuracy of the table along
+sums); it is checked on the implementation against a float64 reference with a bound accumulated per
+table addition (tools/props/c12.py).  A* is proved to emit non-increasing scores and lattice paths for
+every agenda bound; that its *first* result is a maximum over the seed set is checked by
+recomputation, not proved.
 -/
 namespace SSVerif.Lattice
 open SSVerif.Nfa
@@ -230,6 +241,44 @@ theorem C12_exact_forward_backward (ok : LatticeOK G L) (w : Link → Nat) :
     rw [← h1]
     exact S_le_of_mem ((hmem p).2 hp) (pathWeight w)
 
+/-- **C12, integer pass: path posterior at most one, exactly.** `P.ladd` is any log-add that returns at
+least the larger of two non-zero arguments, `P.lz ≤ 0` its log-zero, `P.sc` any scaled link scores such
+that no path score falls below log-zero (no underflow).  Then after the forward pass of
+`lattice_bestpath` the normaliser (`dag->norm`, the log-sum in any order `ents` of the alphas of the
+links entering the end node) is at least the joint score (`lattice_joint`) of *every* non-empty
+start→end path: `lattice_posterior`'s result `joint − norm` is `≤ 0` whatever chain of `best_prev` it
+follows and whatever the rounding of the table. -/
+theorem C12_int_bestpath_posterior_le_one (ok : LatticeOK G L) (P : IntParams) (hlz : P.lz ≤ 0)
+    (hge : ∀ x y, P.lz ≤ x → P.lz ≤ y → max x y ≤ P.ladd x y)
+    (hnu : ∀ p v, Path L L.start p v → P.lz ≤ jointInt P p)
+    (ents : List Link) (hents : ∀ x, x ∈ ents ↔ x ∈ L.links ∧ x.dst = L.final) :
+    ∀ p, Path L L.start p L.final → p ≠ [] → jointInt P p - normInt P (alphaInt P L) ents ≤ 0 := by
+  intro p hp hne
+  have dag := DagOK.of_latticeOK ok
+  obtain ⟨h1, h2⟩ := alphaInt_ge dag hlz hge (fun q x hw => hnu q x.dst hw.path.1)
+  obtain ⟨x, hw, hd⟩ := Walk.of_path hp hne
+  have hx : x ∈ ents := (hents x).2 ⟨hw.mem, hd⟩
+  have := (normInt_ge hge (alphaInt P L) ents P.lz (Int.le_refl _) (fun y hy => h2 y ((hents y).1 hy).1)).2 x hx
+  have := h1 p x hw
+  unfold normInt
+  omega
+
+/-- the same for `logmath_add` with the table the decoder's `logmath_init` produced (base 1.0001,
+shift 0; regenerated from the running code on every run) -/
+theorem C12_int_bestpath_posterior_dec (ok : LatticeOK G L) (sc : Link → Int)
+    (hnu : ∀ p v, Path L L.start p v → SSVerif.LogAdd.cfgDec.lm.zero ≤ (p.map sc).sum)
+    (ents : List Link) (hents : ∀ x, x ∈ ents ↔ x ∈ L.links ∧ x.dst = L.final) :
+    let P : IntParams := { ladd := SSVerif.LogAdd.logAdd SSVerif.LogAdd.cfgDec.lm, lz := SSVerif.LogAdd.cfgDec.lm.zero, sc := sc }
+    ∀ p, Path L L.start p L.final → p ≠ [] → jointInt P p - normInt P (alphaInt P L) ents ≤ 0 := by
+  intro P
+  exact C12_int_bestpath_posterior_le_one ok P (show SSVerif.LogAdd.cfgDec.lm.zero ≤ 0 by decide)
+    (fun x y hx hy => SSVerif.LogAdd.max_le_logAdd SSVerif.LogAdd.cfgDec.lm hx hy) hnu ents hents
+
+/-- the association-list passes executed by the driver compute the functions the theorems are about -/
+theorem C12_int_tables_eq (P : IntParams) (L : Lat) :
+    look (alphaInit P L) (alphaIntT P L) = alphaInt P L ∧ look (fun _ => P.lz) (betaIntT P L) = betaInt P L :=
+  ⟨alphaIntT_eq, betaIntT_eq⟩
+
 /-! ### non-vacuity on the example lattice of C11 (4 start→end paths) -/
 
 example : (traverseEdges exL).map (fun l => (l.src, l.dst))
@@ -246,6 +295,12 @@ example : (nbest exL 6 50).map (fun p => (p.score, p.nodes.reverse))
 -- lost, the order is still non-increasing
 example : (nbestGo exL (remTable exL) 2 50 6 (astarStart exL (remTable exL) 2)).map (·.score) = [-57, -59, -60, -60] := by
   decide +kernel
+
+-- integer pass with `max` as (degenerate) log-add on the example: alphas, normaliser, best joint score
+example : let P : IntParams := { ladd := fun x y => if x ≤ -1000 then y else if y ≤ -1000 then x else max x y + 1, lz := -1000, sc := fun l => l.ascr }
+    ((exL.links.map (alphaInt P exL)), normInt P (alphaInt P exL) (entries exL exL.final),
+     (exL.links.map (look (alphaInit P exL) (alphaIntT P exL))))
+    = ([0, -5, -59, -63, -20, -30, -22, -23, -15], -58, [0, -5, -59, -63, -20, -30, -22, -23, -15]) := by decide +kernel
 
 -- weights 1,2,3,…: forward total = backward total = sum over the four paths
 example : let w : Link → Nat := fun l => l.ef + 1
